@@ -455,6 +455,17 @@ def timers(cx):
         return any(match(("bin", "Add", alt(fld(key), ("int", 1)), alt(fld(key), ("int", 1))), write_value(cx, s)) is not None for s in ws), ws
     ok, ws = incr(te, "RaftCore.election_elapsed")
     cx.check(ok, "election:+1", "tick_election advances election_elapsed by one")
+    # ... on every tick, whatever the node's role in the configuration: the same counter is the lease clock of
+    # non-voters (a learner that never advances it never notices a dead leader's lease running out)
+    gte = cx.pg(te)
+    wb = {s.block for s in ws}
+    rbs = [bi for bi in sorted(cx.prog.A(te).reach) if te.body.blocks[bi]["term"]["k"] == "return"]
+    cx.check(bool(wb) and all(gte.dominated_by_block((rb, "term"), lambda b: b in wb) for rb in rbs), "election:+1:always", "tick_election advances election_elapsed on every path (no early return before the increment)")
+    okh, wsh = incr(th, "RaftCore.heartbeat_elapsed")
+    gth = cx.pg(th)
+    wbh = {s.block for s in wsh}
+    rbh = [bi for bi in sorted(cx.prog.A(th).reach) if th.body.blocks[bi]["term"]["k"] == "return"]
+    cx.check(bool(wbh) and all(gth.dominated_by_block((rb, "term"), lambda b: b in wbh) for rb in rbh), "heartbeat:+1:always", "tick_heartbeat advances heartbeat_elapsed on every path")
     ok, _ = incr(th, "RaftCore.election_elapsed")
     ok2, _ = incr(th, "RaftCore.heartbeat_elapsed")
     cx.check(ok and ok2, "heartbeat:+1", "tick_heartbeat advances both counters by one")
@@ -553,6 +564,17 @@ def uncommitted(cx):
     unc0 = lambda l: l[0] == "in" and l[2] == frozenset([0]) and is_f(l[1], "UncommittedState.uncommitted_size")
     fits = lambda l: l[0] == "is" and l[2] is False and l[1][0] == "bin" and l[1][1] == "Lt" and is_f(l[1][2], "UncommittedState.max_uncommitted_size")
     over = lambda l: l[0] == "is" and l[2] is True and l[1][0] == "bin" and l[1][1] == "Lt" and is_f(l[1][2], "UncommittedState.max_uncommitted_size")
+    # second accepted form: a running total over the entries, tested after each addition, charged once at the end
+    # (`for e in ents { size += len(e); if !fits(size) { return false } } unc += size; true`). The exact path table
+    # below is for the straight-line form; the loop form is decided by _running_total (same four facts: what is tested,
+    # against what, what is charged, and that they are one and the same quantity).
+    addsites0 = [s for s in cx.prog.writes.get("UncommittedState.uncommitted_size", []) if s.fn is f and "stmt" in s.data]
+    if len(addsites0) == 1:
+        v0 = write_value(cx, addsites0[0])
+        acc = [x for x in (v0[2:4] if v0[0] == "bin" and v0[1] == "Add" else []) if x[0] in ("phi", "local") and not is_f(x, "UncommittedState.uncommitted_size")]
+        if acc and _running_total(cx, f, g, acc[0], addsites0[0], rets, nolimit, unc0, fits, over):
+            _uncommitted_callers(cx, f)
+            return
     ok_t = bool(tr) and all(has(l, nolimit) or has(l, size0) or has(l, unc0) or has(l, fits) for l in tr)
     kinds = {k for k, p in (("nolimit", nolimit), ("size0", size0), ("unc0", unc0), ("fits", fits)) if any(has(l, p) for l in tr)}
     ok_f = bool(fa) and all(has(l, over) and not has(l, nolimit) and not has(l, size0) and not has(l, unc0) for l in fa)
@@ -581,6 +603,51 @@ def uncommitted(cx):
         over_edge = lambda lits: any(over(l) for l in lits)
         okr, _ = g.after_edge_never_reaches(over_edge, lambda b: b in adds)
         cx.check(okr, "accounting:refused", "a refused proposal is not charged", s)
+    _uncommitted_callers(cx, f)
+
+
+def _running_total(cx, f, g, acc, addsite, rets, nolimit, unc0, fits, over):
+    """Loop form of the admission. Returns False (and checks nothing) if the function is not in that form."""
+    a = cx.prog.A(f)
+    L = acc[1]
+    defs = a.defs[L]
+    if len(defs) != 2 or any(d[2] != "assign" for d in defs):
+        return False
+    vals = [a.expr_rvalue(d[3], (d[0], d[1])) for d in defs]
+    zero = [v for v in vals if v == ("int", 0)]
+    step = [v for v in vals if v[0] == "bin" and v[1] == "Add"]
+    if len(zero) != 1 or len(step) != 1:
+        return False
+    st = step[0]
+    plen = [x for x in st[2:4] if x[0] == "call" and x[1].endswith("::len") and any(y[0] == "field" and y[2].endswith("Entry.data") for y in walk(x))]
+    self_ref = [x for x in st[2:4] if x[0] in ("phi", "local") and x[1] == L]
+    cx.check(len(plen) == 1 and len(self_ref) == 1, "size:shape", "the running total adds len(entry.data) of each offered entry, nothing else (found %s)" % show(st)[:120])
+    def mentions_acc(e):
+        return any((x[0] in ("phi", "local") and len(x) > 1 and x[1] == L) or (x[0] == "opaque" and str(x[1]) in ("loop:_%d" % L, "cycle:_%d" % L)) for x in walk(e))
+    tested = [l for lits, v, _ in rets for l in lits if over(l) or fits(l)]
+    okt = bool(tested) and all(l[1][3][0] == "bin" and l[1][3][1] == "Add" and any(mentions_acc(x) for x in l[1][3][2:4]) and any(is_f(x, "UncommittedState.uncommitted_size") for x in l[1][3][2:4]) for l in tested)
+    cx.check(okt, "limit:shape", "what is tested against the limit is the running total + uncommitted_size -- the very quantity that is charged afterwards, not the size of one entry")
+    adds = {addsite.block}
+    fa = [lits for lits, v, _ in rets if v == ("bool", False)]
+    def refusal(lits):
+        # the verdict is taken by the last test on the path: total != 0, outstanding != 0, total + outstanding > max
+        tail = [l for l in lits if not (l[0] == "is" and "slog" in show(l[1]))][-3:]
+        return len(tail) == 3 and over(tail[2]) and any(l[0] == "notin" and 0 in l[2] and is_f(l[1], "UncommittedState.uncommitted_size") for l in tail[:2]) and \
+            any(l[0] == "notin" and 0 in l[2] and mentions_acc(l[1]) for l in tail[:2]) and not any(nolimit(l) for l in lits)
+    okf = bool(fa) and all(refusal(lits) for lits in fa)
+    cx.check(okf, "admission", "a proposal is refused only when the limit is finite, something is outstanding and the running total no longer fits")
+    okr, _ = g.after_edge_never_reaches(lambda lits: any(over(l) for l in lits), lambda b: b in adds)
+    cx.check(okr, "accounting:refused", "a refused proposal is not charged", addsite)
+    tb = [b for lits, v, b in rets if v == ("bool", True) and not any(nolimit(l) for l in lits)]
+    okc = bool(tb) and all(g.dominated_by_block((b, "term"), lambda bb: bb in adds, assume=[("is", l[1], False) for lits, v, _ in rets for l in lits if nolimit(l)][:1]) for b in set(tb))
+    cx.check(okc, "accounting", "every admitted (limited) proposal is added to uncommitted_size")
+    v = write_value(cx, addsite)
+    cx.check(v[0] == "bin" and v[1] == "Add" and any(is_f(x, "UncommittedState.uncommitted_size") for x in v[2:4]), "accounting:value", "uncommitted_size += the running total just admitted (found %s)" % show(v)[:120], addsite)
+    return True
+
+
+def _uncommitted_callers(cx, f):
+    g = cx.pg(f)
     # the leader's append asks first and appends nothing when refused
     from .append import stamp_fns
     for lf in stamp_fns(cx).values():
@@ -704,8 +771,9 @@ def uncommitted_tail(cx):
         okm = False
         for m in mp:
             for a in m[2]:
-                if a[0] == "closure":
-                    rets = closure_returns(cx.prog, a[1])
+                if a[0] in ("closure", "fnref"):
+                    from ..idioms import callable_returns
+                    rets = callable_returns(cx.prog, a)
                     if rets and len(rets) == 1:
                         r = rets[0][1]
                         okm = r[0] == "call" and r[1].endswith("::len") and any(x[0] == "field" and x[2].endswith("Entry.data") for x in walk(r))
